@@ -1,25 +1,5 @@
-# Per-property wording for MANIFEST.json (level text, trusted base note, technique).
-NOTE_COMMON = ("Trusted: Lean 4.33 kernel (axioms per theorem audited each run: only propext, Classical.choice, Quot.sound; "
-               "no native_decide/bv_decide/sorry), the hand-written model as a reading of the Rust, tied to /repo only by the "
-               "differential correspondence on the inputs explored per run (exhaustive where stated in evidence) ")
-LEVEL = {
-    "C09": {
-        "text": "Kernel-checked theorems about the resequencer model: for every start value, every run length <= 256 and every permutation the run is released exactly once in order and the buffer ends empty (C09_contiguous); for every call sequence: reachable-state invariant, drain never panics, each release carries the expected number and advances it by one, multiset conservation of inputs. The model is tied to srad-app/src/resequencer.rs on every run by executing the real Resequencer<u32> and the model on the same call sequences (all permutations of short runs from all 256 starts, all short call sequences, random long ones).",
-        "note": NOTE_COMMON + "and BTreeMap as an ordered map.",
-        "technique": "Lean 4 proof by invariant/induction over an executable model + differential correspondence with the compiled code",
-        "design_ref": "DESIGN.md section 7 (C09)",
-    },
-    "C10": {
-        "text": "Kernel-checked round-trip and encoded-form theorems for every value of the 13 scalar types (as bit patterns) in the protobuf variants used by all four wrapper kinds, for fixed-width arrays of every length, boolean arrays of every length < 2^32 and bit pattern, NUL-free string arrays, and datatype-directed decoding (variant named by the datatype, same value). The try_from_metric_value decision table is regenerated from the compiled crate each run and proved equal to the model by `decide +kernel`; everything else is tied to value.rs by differential execution.",
-        "note": NOTE_COMMON + "plus the table extractor; Rust integer casts / to_le_bytes / String::from_utf8 as modelled.",
-        "technique": "Lean 4 proof (induction, decide over regenerated table) + differential correspondence with the compiled code",
-        "design_ref": "DESIGN.md section 7 (C10)",
-    },
-    "C19": {
-        "text": "Kernel-checked totality (the explicit panic outcome is unreachable), allocation-bound and length-exactness theorems for all array decoders and datatype-directed decoding over arbitrary byte strings; tied to the Rust decoders by exhaustive short byte strings into all 13 decoders, structured count/length mismatches and mutated inputs under catch_unwind with capacity checks.",
-        "note": NOTE_COMMON + "; decoders of property sets, template values, command payloads and STATE JSON are covered as their models are added.",
-        "technique": "Lean 4 proof (panic-as-outcome model, induction) + differential correspondence with the compiled code",
-        "design_ref": "DESIGN.md section 7 (C19)",
-    },
-}
-NOT_YET = {}
+# Per-property wording for MANIFEST.json (data in manifest_text.json).
+import json, os
+_d = json.load(open(os.path.join(os.path.dirname(os.path.abspath(__file__)), "manifest_text.json")))
+LEVEL = _d["LEVEL"]
+NOT_YET = _d["NOT_YET"]
